@@ -92,6 +92,15 @@ func invokeGlobals(pooled bool) ugo.Map {
 
 // kept: one Invoker per script function for the whole run (its child VM is re-used by every call)
 func invokeGlobalsKept(pooled, kept bool) ugo.Map {
+	m := invokeGlobalsKept0(pooled, kept)
+	// a host function that panics: a script function which catches it behaves the same on a child VM
+	m["gopanic"] = &ugo.Function{Name: "gopanic", Value: func(args ...ugo.Object) (ugo.Object, error) {
+		panic(fmt.Sprintf("host panic %v", args))
+	}}
+	return m
+}
+
+func invokeGlobalsKept0(pooled, kept bool) ugo.Map {
 	invokers := map[ugo.Object]*ugo.Invoker{}
 	// the host re-uses one argument buffer for all its Invoke calls: the callee must not keep or
 	// write through it
@@ -166,7 +175,7 @@ func runInvokeTwin(args []*Sexp) *Sexp {
 	}
 	switch mode {
 	case "direct", "callback-pooled", "callback-unpooled", "callback-kept-pooled", "callback-kept-unpooled":
-		src := "global invoke\nout := []\n" + defs
+		src := "global (invoke, gopanic)\nout := []\n" + defs
 		for _, s := range seq {
 			src += callLine(s.List[0].Atom, callArgs(s), mode != "direct")
 		}
@@ -175,13 +184,13 @@ func runInvokeTwin(args []*Sexp) *Sexp {
 		if pan != nil || err != nil {
 			return L(A("compile-error"), A(sanitize(fmt.Sprint(err, pan))))
 		}
-		return runBytecode(bc, invokeGlobalsKept(strings.HasSuffix(mode, "-pooled"), strings.Contains(mode, "kept")))
+		return runVM(ugo.NewVM(bc).SetRecover(true), invokeGlobalsKept(strings.HasSuffix(mode, "-pooled"), strings.Contains(mode, "kept")))
 	case "post-pooled", "post-unpooled":
 		names := map[string]bool{}
 		for _, s := range seq {
 			names[s.List[0].Atom] = true
 		}
-		src := "global invoke\nout := []\n" + defs + "return {state: state"
+		src := "global (invoke, gopanic)\nout := []\n" + defs + "return {state: state"
 		for n := range names {
 			src += ", " + n + ": " + n
 		}
@@ -190,7 +199,7 @@ func runInvokeTwin(args []*Sexp) *Sexp {
 		if pan != nil || err != nil {
 			return L(A("compile-error"), A(sanitize(fmt.Sprint(err, pan))))
 		}
-		vm := ugo.NewVM(bc)
+		vm := ugo.NewVM(bc).SetRecover(true)
 		ret, err := vm.Run(invokeGlobals(true))
 		if err != nil {
 			return errSexp(err)
